@@ -19,6 +19,8 @@ Driver for C18.  One case = one history of balance rounds on one node pool.
   go
   dcfg <abn> <norm>   /  dmark <k>      detector-only cases (exhaustive stream): k = 0 filterRealAbnormalNodes
         on the one node, 1 tryMarkNodesAsNormal, 2 resetNodesAsNormal; output `dst <returned> <state…>` per mark
+  cls1 <unsched> <usage> <prodUsage> <low> <high> <plow> <phigh>     classification-only cases (exhaustive
+        stream, one resource): output `cls <code>`
 Output per round: `use` (measured usage / prod usage, -1 = resource not in the map), `thr`/`cls` per node, `evict` per Evict call, `det` per cached detector, `end`.
 The percent→quantity step `int64(float64(pct)*0.01*float64(cap))` and the deviation-mode averages
 use Lean's runtime Float (IEEE binary64, as Go).
@@ -255,6 +257,12 @@ def step (a : Acc) (line : String) : Acc :=
       if d.toNat ≠ dc.pcts.length then fail else
       { a with dc := some { dc with pcts := dc.pcts ++ [⟨optPct l, optPct h, optPct pl, optPct ph⟩] } }
     | _, _ => fail
+  | "cls1" :: rest =>
+    match ints? rest with
+    | some [us, u, pu, l, hi, pl, ph] =>
+      let n : Node := ⟨0, us ≠ 0, false, [u], [pu], [l], [hi], [pl], [ph], []⟩
+      { a with out := a.out.push s!"cls {(classify n).code}" }
+    | _ => fail
   | "dcfg" :: rest =>
     match nats? rest with
     | some [abn, norm] => { a with dcond := some ⟨abn, norm⟩, dds := [] }
